@@ -42,7 +42,7 @@ FIELD_POOL = ['Ok', 'Fail', 'Error', 'Yes', 'No', 'f0', 'A', 'b', 'Busy']
 FEATURES = ['deep_ns', 'global_enc', 'shared_itf', 'empty_itf', 'no_ports', 'inout_mix',
             'out_many_formals', 'nested_enum', 'outer_enum', 'injected', 'same_name_siblings',
             'multi_id_ns', 'reopened_ns', 'system_enc', 'partial_spelling', 'distractors',
-            'many_ports', 'subint_reply', 'bool_reply', 'mc_ready', 'ref_extern', 'prefix_ports', 'mirror_ns', 'many_provides', 'prefix_ns', 'many_requires', 'shadow_ns']
+            'many_ports', 'subint_reply', 'bool_reply', 'mc_ready', 'ref_extern', 'prefix_ports', 'mirror_ns', 'many_provides', 'prefix_ns', 'many_requires', 'shadow_ns', 'repeat_ns']
 
 
 def _uniq(draw, pool, taken, n=1):
@@ -74,6 +74,13 @@ def shell_model(draw, force=None, max_ports=6, collide=False):  # pylint: disabl
                                         max_size=max(1, depth))))
         # a namespace must not be nested in an equally named one (keeps C++ lookups unambiguous)
         enc_scope = tuple(dict.fromkeys(enc_scope))
+    repeat = 'repeat_ns' in feats and not ({'prefix_ns', 'shadow_ns', 'global_enc'} & feats)
+    if repeat:
+        # the encapsulee's scope holds the same identifier at two depths (X.Y.X): enclosing scopes
+        # are told apart by position, not by name; the first interface lives in the level in between
+        if len(enc_scope) < 2:
+            enc_scope = ('Outer',) + (enc_scope or ('Inner',))
+        enc_scope = enc_scope + (enc_scope[0],)
     prefix_sibling = None
     if 'prefix_ns' in feats and enc_scope:
         # a sibling namespace whose name is a string prefix of the encapsulee's namespace name
@@ -125,6 +132,8 @@ def shell_model(draw, force=None, max_ports=6, collide=False):  # pylint: disabl
         sc = draw(st.sampled_from(scopes))
         if shadow_root and i == 0:
             sc = shadow_root
+        if repeat and i == 0:
+            sc = enc_scope[:-1]
         nm = _uniq(draw, pool_for(['Info', 'Msg', 'T', 'Data', 'Value_t', 'Result']), names_in[sc])
         e = {'k': 'extern', 'name': [nm], 'value': f'::xt::T{i}'}
         if 'ref_extern' in feats and i in (0, 1):
@@ -168,6 +177,10 @@ def shell_model(draw, force=None, max_ports=6, collide=False):  # pylint: disabl
             sc = enc_scope  # the declaration that gets a namesake in the prefix-named sibling
         if shadow_root and i == 0:
             sc = shadow_root  # ::A::I referenced from P::A
+        if repeat and i == 0:
+            sc = enc_scope[:-1]  # X.Y.I referenced as plain I from X.Y.X
+        if repeat and i == 1:
+            sc = enc_scope  # its formals look up X.Y.<extern> from X.Y.X.<interface>
         nm = _uniq(draw, pool_for(TYPE_POOL), names_in[sc])
         itf = {'k': 'interface', 'name': [nm], 'types': [], 'events': []}
         if ('nested_enum' in feats and i == 0) or 'mc_ready' in feats or \
@@ -266,7 +279,7 @@ def shell_model(draw, force=None, max_ports=6, collide=False):  # pylint: disabl
         itf_fqn = tuple(sc) + tuple(itf['name'])
         ev_taken = set()
         n_in = draw(st.integers(2 if 'mc_ready' in feats else 1, 4))
-        n_out = draw(st.integers(1 if ('mc_ready' in feats or 'prefix_ports' in feats) else 0, 3))
+        n_out = draw(st.integers(1 if ({'mc_ready', 'prefix_ports', 'out_inout'} & feats) else 0, 3))
         for j in range(n_in + n_out):
             is_in = j < n_in
             ev = {'name': _uniq(draw, EVENT_POOL, ev_taken), 'dir': 'in' if is_in else 'out',
@@ -283,7 +296,8 @@ def shell_model(draw, force=None, max_ports=6, collide=False):  # pylint: disabl
                     ref = choose_ref((rk,), itf_fqn, 'partial_spelling' in feats)
                     if ref:
                         ev['ret'] = ref[1]
-            many = ('out_many_formals' in feats and not is_in) or ('inout_mix' in feats and is_in) \
+            many = (('out_many_formals' in feats or 'out_inout' in feats) and not is_in) or \
+                ('inout_mix' in feats and is_in) \
                 or itf.get('mirror')
             nf = draw(st.integers(2, 4)) if many else draw(st.integers(0, 3))
             f_taken = set()
@@ -302,7 +316,9 @@ def shell_model(draw, force=None, max_ports=6, collide=False):  # pylint: disabl
                     d = ['in', 'out', 'inout'][k % 3] if 'inout_mix' in feats else \
                         draw(st.sampled_from(['in', 'in', 'out', 'inout']))
                 else:
-                    d = 'in'
+                    # the parser refuses 'out' formals on out events, not 'inout' ones; only on
+                    # request (forced feature, never drawn at random)
+                    d = 'inout' if ('out_inout' in feats and k % 2 == 1) else 'in'
                 if ref[0]['elem']['value'].endswith('&'):
                     d = 'in'
                 ev['formals'].append({'name': _uniq(draw, FORMAL_POOL, f_taken), 'type': ref[1],
@@ -323,6 +339,13 @@ def shell_model(draw, force=None, max_ports=6, collide=False):  # pylint: disabl
             ref = choose_ref(('interface',), enc_scope, 'partial_spelling' in feats)
             if not ref:
                 break
+            if repeat and j == 0:
+                d0 = [d for d in flat_decls() if d['elem'] is interfaces[0][1]][0]
+                for sp in (tuple(d0['fqn'][-1:]), tuple(d0['fqn'][-2:])):
+                    found = lookup(flat_decls(), sp, enc_scope)
+                    if len(found) == 1 and found[0]['elem'] is d0['elem']:
+                        ref = (d0, list(sp))
+                        break
             if 'shared_itf' in feats and j == 1 and shared is not None:
                 ref = shared
             if j == 0:
